@@ -262,10 +262,15 @@ fn break_string(max_width: usize, trim_end: bool, line_end: &str, input: &[&str]
             }
         }
 
-        if !trim_end && only_whitespaces_follow {
-            // The rest of the input is significant whitespace: it cannot start the next line,
-            // where it would be taken for indentation.
-            return SnippetState::EndOfInput(input.concat());
+        if only_whitespaces_follow {
+            // Nothing is left for a next line. Without `trim_end` the rest of the input is
+            // significant whitespace, which cannot start the next line, where it would be taken
+            // for indentation; with `trim_end` it is dropped, and no empty line is opened for it.
+            return if trim_end {
+                SnippetState::EndOfInput(input[0..=index_minus_ws].concat())
+            } else {
+                SnippetState::EndOfInput(input.concat())
+            };
         }
         if trim_end {
             SnippetState::LineEnd(input[0..=index_minus_ws].concat(), index_plus_ws + 1)
